@@ -22,8 +22,11 @@ ASSUMPTIONS = [
     "terminate drains, it is woken and its next poll returns the stored error) or follows it (try_state returns the error before "
     "anything is registered); the check decides both halves, one call each",
     "NOT covered: everything else in C16 — ordered exactly-once delivery, finish / end-of-stream, flow control, datagrams not interfering "
-    "(all quinn-proto + real UDP sockets + the connection worker); endpoint close; the worker noticing the close; which table the worker's "
-    "event match picks for each quinn-proto event (inside the run coroutine, not executed)",
+    "(all quinn-proto + real UDP sockets + the connection worker); endpoint close; the worker noticing the close; the rest of "
+    "ConnectionInner::run (select!, timer, transmit, the non-stream event arms)",
+    "conn.stream_event executes a slice of ConnectionInner::run's coroutine body (from the return of state.conn.poll() with Some(event) to the "
+    "next call of state.conn.poll()); required reactions, read from quinn-proto's event documentation: Readable -> the stream's reader, "
+    "Writable -> its writer, Finished -> its stopped() future, Stopped -> its stopped() future and its blocked writer",
 ]
 
 
